@@ -134,7 +134,7 @@ func envCase(c Case, dir string) string {
 	if has(c.Levels, 2) || has(c.Second, 2) {
 		y.WriteString("contexts:\n  c1:\n    env:\n" + vars(c.Levels, 2, "      "))
 	}
-	y.WriteString("tasks:\n  t1:\n    command: 'echo \"OBS X=$X Y=$W P=$PASS TN=$TASK_NAME\"'\n")
+	y.WriteString("tasks:\n  t1:\n    before: 'echo \"HOOKB X=$X Y=$W P=$PASS TN=$TASK_NAME\"'\n    command:\n      - 'echo \"OBS X=$X Y=$W P=$PASS TN=$TASK_NAME\"'\n      - 'echo \"SECOND X=$X Y=$W P=$PASS TN=$TASK_NAME\"'\n    after: 'echo \"HOOKA X=$X Y=$W P=$PASS TN=$TASK_NAME\"'\n")
 	if has(c.Levels, 2) || has(c.Second, 2) {
 		y.WriteString("    context: c1\n")
 	}
@@ -192,6 +192,17 @@ func envCase(c Case, dir string) string {
 	}
 	if got != want {
 		return fmt.Sprintf("command saw %q, precedence model %q", got, want)
+	}
+	if w := "SECOND" + strings.TrimPrefix(want, "OBS"); lineWith(r.out, "SECOND ") != w {
+		return fmt.Sprintf("second command saw %q, precedence model %q", lineWith(r.out, "SECOND "), w)
+	}
+	// a variation belongs to one command instance; the hooks are judged only when no variation is involved
+	if !has(c.Levels, 6) && !has(c.Second, 6) {
+		for _, h := range []string{"HOOKB", "HOOKA"} {
+			if w := h + strings.TrimPrefix(want, "OBS"); lineWith(r.out, h+" ") != w {
+				return fmt.Sprintf("hook saw %q, precedence model %q", lineWith(r.out, h+" "), w)
+			}
+		}
 	}
 	return ""
 }
@@ -315,7 +326,7 @@ func varsCase(c Case, dir string) string {
 	if has(c.Levels, 1) {
 		y.WriteString("variables:\n  v: " + c.val(1, "v") + "\n")
 	}
-	y.WriteString("tasks:\n  t1:\n    command: 'echo \"OBS v={{.v}} root={{.Root}} tmp={{.TempDir}} args=[{{.Args}}] n={{len .ArgsList}}\"'\n")
+	y.WriteString("tasks:\n  t1:\n    before: 'echo \"HOOKB v={{.v}} root={{.Root}}\"'\n    command:\n      - 'echo \"OBS v={{.v}} root={{.Root}} tmp={{.TempDir}} args=[{{.Args}}] n={{len .ArgsList}}\"'\n      - 'echo \"SECOND v={{.v}}\"'\n    after: 'echo \"HOOKA v={{.v}} root={{.Root}}\"'\n")
 	if has(c.Levels, 3) {
 		y.WriteString("    variables:\n      v: " + c.val(3, "v") + "\n")
 	}
@@ -346,6 +357,13 @@ func varsCase(c Case, dir string) string {
 	}
 	if got != want {
 		return fmt.Sprintf("command saw %q, precedence model %q", got, want)
+	}
+	wv := c.val(maxOf(c.Levels), "v")
+	for _, w := range []string{"HOOKB v=" + wv + " root=" + dir, "SECOND v=" + wv, "HOOKA v=" + wv + " root=" + dir} {
+		pre := w[:strings.Index(w, " ")+1]
+		if g := lineWith(r.out, pre); g != w {
+			return fmt.Sprintf("hook or later command saw %q, precedence model %q", g, w)
+		}
 	}
 	return ""
 }
